@@ -397,6 +397,31 @@ def features():
         lambda v, s: Req('GET', ac + '&required=in:CUSTOM_T1,CUSTOM_UNUSED',
                          s),
         jhas(lambda j: n_reqs(j) == 1), st_in(400), 17)
+    # 1.39 also introduces *repeating* required[N]; below, a repeated
+    # parameter is not a conjunction (one value is used, or the request is
+    # refused).  R has VCPU + AVX + T1, E has VCPU and no traits: first value
+    # alone -> {R}, last alone -> {E}, conjunction -> nothing.
+    rep = 'required=HW_CPU_X86_AVX&required=!CUSTOM_T1'
+    add('1.39 repeated required on candidates', 39,
+        lambda v, s: Req('GET', ac + '&' + rep, s),
+        jhas(lambda j: n_reqs(j) == 0),
+        lambda r: r.status == 400 or (
+            r.status == 200 and len(r.json['allocation_requests']) == 1),
+        22)
+    add('1.39 repeated requiredN on candidates', 39,
+        lambda v, s: Req('GET', '/allocation_candidates?resources1=VCPU:1&'
+                         + rep.replace('required', 'required1'), s),
+        jhas(lambda j: n_reqs(j) == 0),
+        lambda r: r.status == 400 or (
+            r.status == 200 and len(r.json['allocation_requests']) == 1),
+        25)
+    add('1.39 repeated required on resource_providers', 39,
+        lambda v, s: Req('GET', '/resource_providers?resources=VCPU:1&'
+                         + rep, s),
+        lambda r: r.status == 200 and r.json['resource_providers'] == [],
+        lambda r: r.status == 400 or (
+            r.status == 200 and len(r.json['resource_providers']) == 1),
+        22)
     # response fields / headers
     add('1.1 aggregates link', 1,
         lambda v, s: Req('GET', '/resource_providers/%s' % R, s),
